@@ -10,6 +10,14 @@ the model `Model/C11.lean` of the algorithmic parts of the conversion:
 * `pack_total`            no panic for at most 256 distinct entry points (fix C11-a)
 * `pack_idempotent`       the PL-level view of the packed table is the table that was packed
 * `ligkern_meaning_preserved`    `C05.rule` of the TFM-level program = `C05.rule` of the PL-level program
+* `roundtrip_ligkern_same_font`, `roundtrip_ligkern_idempotent`
+                          the lig/kern layer of the property at byte level: `predict` (whose output the harness
+                          requires to equal the real bytes of t1) preserves TeX's rule function and is idempotent
+* `roundtrip_chars_same_values`, `roundtrip_chars_idempotent`, `dimension_text_exact`
+                          the character layer at byte level (`charsTrip`, tied to the real bytes of t1): every value
+                          survives, the second trip is the identity; the decimal text is exact (C17's theorem imported)
+* `roundtrip_header_preserved`, `roundtrip_header_idempotent`
+                          the header layer at byte level (`headerTrip`, tied to the real header bytes of t1)
 * `sem_check_sound`       the driver's rule comparison is a proved checker
 * `normalise_preserves_rule`, `normalise_canonical`, `pack_nwf`, `normalise_pack`, `normalise_idempotent`
                           tftopl's normalisation of the instruction list (unreachable words dropped, SKIPs and
@@ -40,6 +48,15 @@ import TexcraftModel.Lemmas.C11NormPack
 import TexcraftModel.Lemmas.C11Parse
 import TexcraftModel.Model.C11Words
 import TexcraftModel.Lemmas.C11Words
+import TexcraftModel.Model.C11Predict
+import TexcraftModel.Lemmas.C11PredictA
+import TexcraftModel.Lemmas.C11PredictB
+import TexcraftModel.Lemmas.C11PredictC
+import TexcraftModel.Model.C11Layers
+import TexcraftModel.Lemmas.C11Layers
+import TexcraftModel.Props.C17
+import TexcraftModel.Model.C11Header
+import TexcraftModel.Lemmas.C11Header
 
 namespace C11.Thm
 open C11
@@ -287,6 +304,115 @@ theorem seven_bit_safe_sound (instrs : List Instr) (lb rb : Option Nat) (entries
 character is not seven-bit); the same step on a seven-bit right character does. -/
 example : ligSafe [⟨none, 0xA8, .lig 0xE4 7⟩] [(97, 0)] = true ∧
     ligSafe [⟨none, 0x28, .lig 0xE4 7⟩] [(97, 0)] = false := by decide
+
+/-! ## The lig/kern layer of the property at byte level (`Model/C11Predict.lean`)
+
+`predict` is the whole lig/kern part of `pl_to_tfm ∘ tfm_to_pl` on the raw sub-file (words,
+lig remainders, kerns); the harness requires its output to *equal the bytes of the real t1*
+(stream `predict`), so these two theorems are the property itself for the lig/kern layer. -/
+
+/-- **roundtrip_ligkern_same_font.** For every raw lig/kern table in the quantifier (`rawOk`:
+distinct characters, `nwf` of the decoded program) the table written by one trip has the same
+`(left, right) ↦ operation` function — decoded from the bytes as TeX decodes them — as the
+original, on every character pair and the left boundary. -/
+theorem roundtrip_ligkern_same_font {b b1 : RawLK} (h : rawOk b = true) (hp : predict b = some b1) :
+    ∀ (l : Option Nat) (r : Nat), rawRule b1 l r = rawRule b l r :=
+  predict_rule h hp
+
+/-- **roundtrip_ligkern_idempotent.** The second trip writes the same lig/kern sub-file,
+byte for byte: `predict (predict b) = predict b`. -/
+theorem roundtrip_ligkern_idempotent {b b1 : RawLK} (h : rawOk b = true) (hp : predict b = some b1) :
+    predict b1 = some b1 :=
+  predict_idem h hp
+
+/-- Non-vacuity: a 5-word table of a font without boundary char — word 0 is an unreachable
+step, character 97 starts at word 1 (`SKIP 1` over the unreachable word 2), character 98 at
+word 3, kerns given by index. One trip drops the two unreachable words, renumbers the SKIP
+and the entry points, and re-indexes the kerns; the result is a fixed point. -/
+example :
+    let b : RawLK := ⟨[⟨128, 70, 128, 1⟩, ⟨1, 65, 128, 1⟩, ⟨128, 66, 128, 0⟩, ⟨0, 67, 128, 0⟩, ⟨128, 68, 0, 69⟩],
+      [(97, 1), (98, 3)], [5, 7]⟩
+    rawOk b = true ∧
+      predict b = some ⟨[⟨0, 65, 128, 0⟩, ⟨0, 67, 128, 1⟩, ⟨128, 68, 0, 69⟩], [(97, 0), (98, 1)], [7, 5]⟩ ∧
+      (predict b).bind predict = predict b := by
+  refine ⟨by decide, by decide, by decide⟩
+
+/-! ## The character layer at byte level (`Model/C11Layers.lean`)
+
+`charsTrip` is `pl_to_tfm ∘ tfm_to_pl` on the char_info words of the existing characters, the
+four dimension tables and the recipe words; the harness requires its output to equal the bytes
+of the real t1 (stream `chars`). The decimal text in between is exact by C17. -/
+
+/-- **roundtrip_chars_same_values.** Every existing character keeps its code, its tag kind and
+the width, height, depth and italic correction its index bytes select (in the *new* tables);
+NEXTLARGER targets are copied; every VARCHAR character finds, under its new remainder, the
+recipe tftopl printed for it (`REP` replaced by the character itself when it does not exist). -/
+theorem roundtrip_chars_same_values (x : RawChars) (h : charsOk x = true) :
+    (charsTrip x).rows.map (fun r => (r.code, r.tag, sel (charsTrip x).W r.wi, sel (charsTrip x).H r.hi,
+        sel (charsTrip x).D r.di, sel (charsTrip x).I r.ii)) =
+      x.rows.map (fun r => (r.code, r.tag, sel x.W r.wi, sel x.H r.hi, sel x.D r.di, sel x.I r.ii)) ∧
+    (charsTrip x).rows.filterMap (fun r => if r.tag = 2 then some (r.code, r.rem) else none) =
+      x.rows.filterMap (fun r => if r.tag = 2 then some (r.code, r.rem) else none) ∧
+    (charsTrip x).rows.filterMap (fun r => if r.tag = 3 then (charsTrip x).ext[r.rem]? else none) =
+      x.rows.filterMap (recipeOf x (x.rows.map (·.code))) :=
+  ⟨charsTrip_values_aux x h, (charsTrip_tags_aux x).1, (charsTrip_tags_aux x).2⟩
+
+/-- **roundtrip_chars_idempotent.** The second trip is the identity on the character layer:
+index bytes, the four tables (zero first, distinct values ascending) and the recipe words. -/
+theorem roundtrip_chars_idempotent (x : RawChars) (h : charsOk x = true) :
+    charsTrip (charsTrip x) = charsTrip x :=
+  charsTrip_idem_aux x h
+
+/-- Non-vacuity: three characters, unsorted tables with a duplicate width, an explicit zero
+depth at a non-zero index, a NEXTLARGER and a VARCHAR whose REP does not exist. -/
+example :
+    let x : RawChars := ⟨[⟨65, 2, 1, 1, 0, 2, 66⟩, ⟨66, 1, 0, 2, 1, 3, 0⟩, ⟨67, 3, 2, 0, 0, 0, 9⟩],
+      [0, 700, 300, 700], [0, 50, 20], [0, 0, 9], [0, 4], [⟨0, 65, 0, 99⟩]⟩
+    charsOk x = true ∧
+      charsTrip x = ⟨[⟨65, 1, 2, 0, 0, 2, 66⟩, ⟨66, 2, 0, 1, 1, 3, 0⟩, ⟨67, 2, 1, 0, 0, 0, 0⟩],
+        [0, 300, 700], [0, 20, 50], [0, 9], [0, 4], [⟨0, 65, 0, 66⟩]⟩ := by
+  refine ⟨by decide, by decide⟩
+
+/-! ## The header layer at byte level (`Model/C11Header.lean`)
+
+`headerTrip safe hb` models the header bytes of t1 from those of t0 and the seven-bit safety of
+the font; the harness requires it to equal the real header of t1 (stream `header`). The
+parameter words are copied (compared byte for byte; their text is exact by C17). -/
+
+/-- **roundtrip_header_preserved.** For a full header (at least 18 words) the trip keeps the
+checksum and the design size (bytes 0–7), the face byte and every additional word; the two
+strings come back with their leading blanks dropped and exactly upper-cased (known findings
+C11-g and C11-d are this and nothing else; blanks inside and at the end are kept) and the
+flag byte is the seven-bit safety of the font (C11-c). For a shorter header the missing
+fields are the PL defaults (`schemeOf`/`familyOf`/`faceOf`: `UNSPECIFIED`, face 0 — C11-e). -/
+theorem roundtrip_header_preserved (safe : Bool) (hb : List Nat) (h : headerOk hb = true) :
+    (headerTrip safe hb).take 8 = hb.take 8 ∧
+    strAt (headerTrip safe hb) 8 = schemeOf hb ∧
+    strAt (headerTrip safe hb) 48 = familyOf hb ∧
+    (headerTrip safe hb)[68]? = some (if safe then 128 else 0) ∧
+    (headerTrip safe hb)[71]? = some (faceOf hb) ∧
+    (headerTrip safe hb).drop 72 = hb.drop 72 := by
+  obtain ⟨_, h1, h2, h3, h4, h5, h6⟩ := headerTrip_parts safe hb h
+  exact ⟨h1, h2, h3, h4, h5, h6⟩
+
+/-- **roundtrip_header_idempotent.** The second trip is the identity on the header. -/
+theorem roundtrip_header_idempotent (safe : Bool) (hb : List Nat) (h : headerOk hb = true) :
+    headerTrip safe (headerTrip safe hb) = headerTrip safe hb :=
+  headerTrip_idem_aux safe hb h
+
+/-- Non-vacuity: a 2-word header (checksum, design size) is padded with the PL defaults. -/
+example : headerOk [1, 2, 3, 4, 0, 160, 0, 0] = true ∧
+    (headerTrip true [1, 2, 3, 4, 0, 160, 0, 0]).length = 72 ∧
+    (headerTrip true [1, 2, 3, 4, 0, 160, 0, 0]).take 21 =
+      [1, 2, 3, 4, 0, 160, 0, 0, 11, 85, 78, 83, 80, 69, 67, 73, 70, 73, 69, 68, 0] := by decide
+
+/-- **dimension_text_exact** (C17's `fix_print_parse`, imported, not trusted): every fix_word
+except `0x80000000` that tftopl prints — every width, height, depth, italic correction, kern,
+parameter and the design size — is read back by pltotf as the identical 32-bit value. This is
+what lets `charsTrip` and `predict` carry *values* across the property-list text. -/
+theorem dimension_text_exact (v : Int) (hlo : -2147483648 < v) (hhi : v ≤ 2147483647) :
+    C17.parseFix (C17.plText v) = ⟨v, .none⟩ :=
+  C17.fix_print_parse v hlo hhi
 
 /-- **sem_check_sound.** The comparison the driver runs on the instruction lists decoded
 from t0 and t1 (`firstRuleDiff`, which searches only left characters with an entry point and
